@@ -172,11 +172,15 @@ func c15nNewCluster(backend string, nodes int, st *c15nStats, written func(tier,
 	return c, nil
 }
 
-func c15nYieldHook(r *mrand.Rand) vk.Hook {
+// c15nYieldHook perturbs the interleaving and, when perMille > 0, makes that fraction
+// of the SetNX/Set/Exists/Get/Delete calls on slot keys fail with vk.ErrInjected
+// (injected before the operation is applied).
+func c15nYieldHook(r *mrand.Rand, perMille int, injected *atomic.Int64) vk.Hook {
 	var mu sync.Mutex
-	return func(_, _, _ string) error {
+	return func(_, op, key string) error {
 		mu.Lock()
 		x := r.Intn(1000)
+		y := r.Intn(1000)
 		mu.Unlock()
 		switch {
 		case x < 600:
@@ -189,8 +193,19 @@ func c15nYieldHook(r *mrand.Rand) vk.Hook {
 		default:
 			time.Sleep(time.Duration(5+x%40) * time.Microsecond)
 		}
+		if perMille > 0 && y < perMille && strings.HasPrefix(key, NodeIDKeyPrefix) {
+			switch op {
+			case "SetNX", "Set", "Exists", "Get", "Delete":
+				injected.Add(1)
+				return vk.ErrInjected
+			}
+		}
 		return nil
 	}
+}
+
+func c15nInjected(err error) bool {
+	return err != nil && strings.Contains(err.Error(), vk.ErrInjected.Error())
 }
 
 // ---------------------------------------------------------------- history
@@ -313,6 +328,7 @@ type c15nCase struct {
 	P       int    `json:"prefix_len,omitempty"`
 	Hole    int    `json:"hole,omitempty"`
 	MaxHold int    `json:"max_hold"`
+	Fault   int    `json:"storage_fault_per_mille"`
 	Sub     int64  `json:"subseed"`
 }
 
@@ -360,7 +376,9 @@ func c15nRunCase(t *testing.T, run *vk.Run, cs c15nCase, fam *c15nStats) bool {
 		seeded[id] = true
 	}
 	run.Count("preoccupied_slots", int64(len(occ)))
-	cl.setHook(c15nYieldHook(mrand.New(mrand.NewSource(cs.Sub ^ 0x1e1d))))
+	var injected atomic.Int64
+	cl.setHook(c15nYieldHook(mrand.New(mrand.NewSource(cs.Sub^0x1e1d)), cs.Fault, &injected))
+	defer func() { run.Count("faults_injected", injected.Load()) }()
 
 	sigTail := fmt.Sprintf("backend=%s", cs.Backend)
 	sequential := cs.Backend == "no-setnx"
@@ -377,6 +395,13 @@ func c15nRunCase(t *testing.T, run *vk.Run, cs c15nCase, fam *c15nStats) bool {
 			op := c15nOp{ID: x.id, Thread: w, Call: h.now()}
 			err := x.a.Release()
 			op.Ret = h.now()
+			if c15nInjected(err) {
+				// not applied: the slot stays occupied for the rest of the case and the
+				// failed call creates no obligation (Release is not retried: the
+				// allocator has already stopped its heartbeat)
+				run.Count("release_failed_injected", 1)
+				return
+			}
 			op.OK = err == nil
 			if err != nil {
 				op.Err = err.Error()
@@ -470,7 +495,7 @@ func TestVerifC15NodeAlloc(t *testing.T) {
 	vk.Quiet()
 	run := vk.Start(t, "C15", "node-alloc")
 	defer run.Finish()
-	run.Rule("case = (backend in memory/redis(miniredis)/hybrid+shared redis/hybrid local/no-SetNX double (sequential), N in {2,4,8} concurrent NodeIDAllocators each on its own storage client, pre-occupied slots none/prefix/all-but-one/all 1000 marked through the allocator's own acquisition path, hold/release pattern); random yields at every storage operation; distinct = (backend,N,preseed)")
+	run.Rule("case = (backend in memory/redis(miniredis)/hybrid+shared redis/hybrid local/no-SetNX double (sequential), N in {2,4,8} concurrent NodeIDAllocators each on its own storage client, pre-occupied slots none/prefix/all-but-one/all 1000 marked through the allocator's own acquisition path, hold/release pattern); random yields at every storage operation, every second case with storage faults injected before 0.2-2.5% of the slot-key operations; distinct = (backend,N,preseed,faults on/off)")
 	r := run.Rand("cases")
 	reps := run.Pick(4, 30)
 	pre := []string{"none", "prefix", "all-but-one", "all"}
@@ -504,6 +529,9 @@ func TestVerifC15NodeAlloc(t *testing.T) {
 						cs.Rounds = 4
 					}
 				}
+				if rep%2 == 1 {
+					cs.Fault = []int{2, 8, 25}[r.Intn(3)]
+				}
 				run.Case(fmt.Sprintf("node-alloc|%s|N=%d|%s", be, n, ps), cs)
 				if c15nRunCase(t, run, cs, fams[be]) {
 					decided++
@@ -511,7 +539,7 @@ func TestVerifC15NodeAlloc(t *testing.T) {
 					aborted = true
 				}
 				run.Eval(1)
-				run.Distinct(fmt.Sprintf("%s|N=%d|%s", be, n, ps))
+				run.Distinct(fmt.Sprintf("%s|N=%d|%s|faults=%v", be, n, ps, cs.Fault > 0))
 				run.Sample(cs)
 			}
 		}
@@ -527,6 +555,7 @@ func TestVerifC15NodeAlloc(t *testing.T) {
 	run.Floor("all_cases_decided", 1)
 	run.Floor("allocate_ok", 50)
 	run.Floor("release_ok", 50)
+	run.Floor("faults_injected", 200)
 }
 
 // ---------------------------------------------------------------- lease over time
